@@ -111,7 +111,7 @@ void vh_set_prov(int i);		/* aborts (harness failure) if it cannot be set */
 typedef struct { char site[32]; int alg; int kty; int key_alg; int bits; int is_priv; } vh_hookrec_t;
 void vh_hook_install(void);
 int vh_hook_drain(vh_hookrec_t *out, int max);	/* returns number of records since last drain (this thread) */
-void vh_put_hooks(FILE *f);			/* drains and prints ,"hooks":[...] */
+void vh_put_hooks(FILE *f, int keyed);		/* drains and prints ,"hooks":[...] (keyed) or ,[...] */
 
 /* ---- fake clock (link vh_clock.c) ------------------------------------------ */
 extern time_t vh_now;
